@@ -13,6 +13,7 @@ RULE = ("operators: every Pauli string with <=3 non-identity factors on index se
         "and n=None; matrices for the Pauli expansion: all E_ij x scalars, all Pauli-string matrices and all sums of two of them; "
         "states: polarisation set {e_i, (e_i+e_j)/sqrt2, (e_i+i e_j)/sqrt2}. non-trivial = reference matrix non-zero and not a multiple of identity")
 RULE += ' Also: registers of 9-11 qubits (every single-qubit Pauli on every qubit, Z-only and mixed sums) against a vectorised bit-arithmetic reference.'
+RULE += ' Round 5: the exported expectation() with the state as 1-D array, column vector and sparse density matrix.'
 ASSUMPTIONS = ["numpy dense arithmetic is correct", "reference Pauli matrices are built from X|b>=|1-b>, Y|0>=i|1>, Z|b>=(-1)^b|b> by bit arithmetic"]
 BOUNDS = {"quick": {"max_index": 3, "factors": 3, "sum_terms": 2, "expansion_qubits": 2},
           "thorough": {"max_index": 3, "factors": 3, "sum_terms": 3, "expansion_qubits": 3}}
